@@ -7,6 +7,7 @@ import (
 	"crypto/ecdsa"
 	"encoding/json"
 	"fmt"
+	"hash/crc32"
 	"os"
 	"sort"
 	"testing"
@@ -91,7 +92,29 @@ func (r *run) setHeight(h int64) {
 	r.ctx = r.ctx.WithBlockHeight(r.w.base + h).WithBlockTime(time.Date(2024, 1, 1, 0, 0, 0, 0, time.UTC).Add(time.Duration(2*h) * time.Second))
 }
 
+// delegated: in this history the validators' relayers sign their transactions with a separate (fee-grantee) key, the set-up
+// x/paloma's ante decorator admits: Creator is the validator's account, Signers names the delegate. Which histories run that
+// way is a function of the history itself (stable under sampling and replay). Nothing the chain does may depend on it.
+var delegated bool
+
+func historyDelegated(h drv.History) bool {
+	c := crc32.NewIEEE()
+	for _, s := range h.Steps {
+		c.Write([]byte(s.Act))
+		c.Write(s.Args)
+	}
+	return c.Sum32()%2 == 1
+}
+
+// delegators: the accounts that sign through a delegate in a `delegated` history (every second validator, so that
+// both kinds of submitters occur side by side)
+var delegators = map[string]bool{}
+
 func meta(a sdk.AccAddress) valsettypes.MsgMetadata {
+	if delegated && delegators[a.String()] {
+		d := sdk.AccAddress(crypto.Keccak256(append([]byte("verif-delegate-of-"), a...))[:20])
+		return valsettypes.MsgMetadata{Creator: a.String(), Signers: []string{d.String()}}
+	}
 	return valsettypes.MsgMetadata{Creator: a.String(), Signers: []string{a.String()}}
 }
 
@@ -501,6 +524,11 @@ func TestDriveCQueue(t *testing.T) {
 	}
 	defer em.Close()
 	w := newWorld()
+	for i, v := range w.e.Vals {
+		if i%2 == 1 {
+			delegators[v.Acc.String()] = true
+		}
+	}
 	shares := []int{}
 	snap, err := w.e.Valset.GetCurrentSnapshot(w.e.Ctx)
 	if err != nil {
@@ -514,6 +542,7 @@ func TestDriveCQueue(t *testing.T) {
 		shares = append(shares, sh)
 	}
 	for _, h := range hs {
+		delegated = historyDelegated(h)
 		cctx, _ := w.e.Ctx.CacheContext()
 		r := &run{w: w, ctx: cctx, keys: map[int][]*ecdsa.PrivateKey{}, oldBts: map[int][][]byte{}, kinds: map[int]string{}}
 		for i, v := range w.e.Vals {
